@@ -8,6 +8,8 @@ root = os.path.dirname(os.path.abspath(__file__))
 res = json.load(open(os.path.join(root, 'seeded', 'results.json')))
 rows = []
 caught = neutral = 0
+neutral_ids = []
+missed_ids = []
 seeds = sorted(k for k in res if not k.startswith('_'))
 for s in seeds:
     mp = os.path.join(root, 'seeded', s, 'meta.json')
@@ -22,6 +24,9 @@ for s in seeds:
         caught += 1
     elif st.startswith('neutralised'):
         neutral += 1
+        neutral_ids.append(s)
+    else:
+        missed_ids.append(s)
     rows.append('| %s | %s | %s | %s |' % (s, breaks, by or '—', st))
 
 p = os.path.join(root, 'DESIGN.md')
@@ -31,6 +36,7 @@ i = txt.index(hdr) + len(hdr)
 j = txt.index('\n\n', i)
 txt = txt[:i] + '\n'.join(rows) + txt[j:]
 txt = re.sub(r'\d+ of \d+ confirmed seeded changes are reported', '%d of %d confirmed seeded changes are reported' % (caught, len(seeds)), txt)
-txt = re.sub(r'(\d+) were neutralised by repairs', '%d were neutralised by repairs' % neutral, txt)
+txt = re.sub(r'\d+ were neutralised by repairs \([^)]*\)', '%d were neutralised by repairs (%s)' % (neutral, ', '.join(neutral_ids)), txt)
+txt = re.sub(r'The misses are listed with the reason', 'The misses (%s) are listed with the reason' % ', '.join(missed_ids), txt) if 'The misses (' not in txt else re.sub(r'The misses \([^)]*\) are listed', 'The misses (%s) are listed' % ', '.join(missed_ids), txt)
 open(p, 'w').write(txt)
 print('seeds=%d caught=%d neutralised=%d' % (len(seeds), caught, neutral))
